@@ -12,7 +12,9 @@ VALS = [("vTrue",), ("vFalse",), ("v0",), ("v1",), ("vflt",), ("vstr",), ("vstra
         ("tup0",), ("tup1", "v1"), ("tup1", "vgn"), ("tup2", "vstr", "v1"), ("tup2", "vgn", "vgm"), ("lst1", "v1"), ("fs1", "v1"),
         ("tup1", "vTrue"), ("tup2", "vgm", "vNone"), ("tup1", "vFalse"), ("tup2", "v1", "vFalse"), ("tup1", "vNone"),
         ("tup2", "vstra", "v1"), ("tup1", "vgm"), ("lst1", "vgn"), ("tup3", "vstr", "v1", "v1"), ("tup3", "vgn", "vgm", "vgn"),
-        ("tup3", "v1", "v1", "v1")]
+        ("tup3", "v1", "v1", "v1"), ("tup2", "vstra", "vstr"), ("tup2", "v1", "v0"), ("tup3", "vstra", "vstra", "vstr"),
+        ("tup2", "vgm", "vgn"), ("tup2", "tup1", "v1", "tup1", "vstr"), ("tup2", "tup1", "vstr", "tup1", "v1"),
+        ("tup2", "vNone", "v1"), ("tup2", "v0", "vNone")]
 ALL_LEAVES = {"int", "str", "float", "bool", "none", "any", "lit", "enum", "GN", "GM"}
 FEW_LEAVES = {"int", "none", "GN", "GM"}
 
@@ -119,12 +121,7 @@ def trace_validate(chk, lines, name="trace"):
     cfg = "INIT Init\nNEXT Next\nPOSTCONDITION Done\nCHECK_DEADLOCK FALSE\n"
     r = tlc.run(chk.wd, "Trace_Typing", cfg, workers=1, timeout=3000, env={"TRACE_FILE": str(f)})
     chk.note_tlc(f"Trace_Typing/{name}", r, "trace-validation")
-    rej = [int(ln.split(",")[1]) for ln in r.stdout.splitlines() if ln.startswith('<<"REJECT"')]
-    if r.distinct - 1 != len(lines):
-        raise tlc.MachineryError(f"Trace_Typing consumed {r.distinct - 1} of {len(lines)} lines\n" + r.stdout[-3000:])
-    if not r.ok and not rej:
-        raise tlc.MachineryError("Trace_Typing failed without naming a line:\n" + r.stdout[-3000:])
-    return rej
+    return sorted(tlc.rejected(r, len(lines), "Trace_Typing"))
 
 
 def run(chk: core.Check):
